@@ -41,25 +41,25 @@ type Finding struct {
 
 // Ctx collects the obligations of one property check.
 type Ctx struct {
-	P      *Program
-	Prop   string
-	Tier   string
-	Config string
-	Obls   []*Obl
-	rules  map[string]*ruleInfo
-	Notes  []string
+	P           *Program
+	Prop        string
+	Tier        string
+	Config      string
+	Obls        []*Obl
+	rules       map[string]*ruleInfo
+	Notes       []string
 	Assumptions []string
 	Explanation string
-	Extra  map[string]interface{}
+	Extra       map[string]interface{}
 	vacuityDone bool
 	mutated     map[string]bool
 }
 
 type ruleInfo struct {
 	ID, Kind, Doc string
-	Min       int
-	Instances int
-	Violations int
+	Min           int
+	Instances     int
+	Violations    int
 }
 
 func NewCtx(p *Program, prop, tier string) *Ctx {
@@ -90,11 +90,11 @@ func (c *Ctx) add(rule, key, pos string, st Status, detail string) {
 	c.Obls = append(c.Obls, &Obl{Rule: rule, Key: rule + "/" + key, Pos: pos, Status: st, Detail: detail})
 }
 
-func (c *Ctx) Ok(rule, key, pos, detail string)      { c.add(rule, key, pos, OK, detail) }
-func (c *Ctx) Bad(rule, key, pos, detail string)     { c.add(rule, key, pos, Viol, detail) }
-func (c *Ctx) Assume(rule, key, pos, detail string)  { c.add(rule, key, pos, Assumed, detail) }
-func (c *Ctx) Note(rule, key, pos, detail string)    { c.add(rule, key, pos, Info, detail) }
-func (c *Ctx) Broken(rule, key, detail string)       { c.add(rule, key, "", Integrity, detail) }
+func (c *Ctx) Ok(rule, key, pos, detail string)     { c.add(rule, key, pos, OK, detail) }
+func (c *Ctx) Bad(rule, key, pos, detail string)    { c.add(rule, key, pos, Viol, detail) }
+func (c *Ctx) Assume(rule, key, pos, detail string) { c.add(rule, key, pos, Assumed, detail) }
+func (c *Ctx) Note(rule, key, pos, detail string)   { c.add(rule, key, pos, Info, detail) }
+func (c *Ctx) Broken(rule, key, detail string)      { c.add(rule, key, "", Integrity, detail) }
 
 // Check records ok/violation by a boolean.
 func (c *Ctx) Check(cond bool, rule, key, pos, okDetail, badDetail string) bool {
